@@ -187,15 +187,13 @@ def overSem (o : AOp) (a : V) : Sem :=
   | .int n => .val (.int n)
   | .ints xs => if xs.isEmpty then .unm else .val (.int (foldOp o xs))
   | .mat rows => if rect rows then .val (.ints (colFold o rows)) else .unm
-  | .str cs => if cs.length < 2 then .unm else .err
-  | _ => .unm
+  | _ => .unm          -- strings: fold of the verb over the characters, not modelled
 
 def scanSem (o : AOp) (a : V) : Sem :=
   match o with
   | .plus | .times =>
     (match a with
      | .ints xs => if xs.isEmpty then .unm else .val (.ints (scanOp o xs))
-     | .str cs => if cs.length < 2 then .unm else .err
      | _ => .unm)
   | _ => .unm
 
